@@ -109,6 +109,21 @@ func Run(c *hx.Ctx) {
 			e2eFatChtimes(c, rr, id, i)
 		}
 	}
+	// second round of codec cases (deep5.go): Rock Ridge stamps / TF / PX big-endian halves, squashfs id table blocks and
+	// inode types; after everything else, so that the streams of the cases above are what they were
+	rd := r.Fork()
+	if c.Only == "" || strings.HasPrefix(c.Only, "codec") {
+		codecDeep5(c, rd)
+	}
+	// ext4 setters on inode records made by mke2fs / debugfs (in-inode extended attributes, project id, i_version)
+	nRmw := c.N(3, 24)
+	for i := 0; i < nRmw; i++ {
+		rr := r.Fork()
+		id := fmt.Sprintf("ext4rmw-%d", i)
+		if c.Only == "" || c.Only == id || strings.HasPrefix(c.Only, id+"/") {
+			e2eExt4Rmw(c, rr, id, i)
+		}
+	}
 }
 
 type kind int
